@@ -215,6 +215,12 @@ func (p *ProjectionParser) makeProjection(s *Projection, q string, proj parse.Fi
 					// Create a new field for this new key.
 					field = s.addField(group, cfg.Key)
 					initField(field)
+					if field.order != nil && len(s.keys) > 0 {
+						// Keys interned before this file key was
+						// first seen have "" for this field, so ""
+						// is its first observed value.
+						field.order[""] = 0
+					}
 					seen[cfg.Key] = field
 				}
 
